@@ -258,7 +258,8 @@ class DataclassAdapter(GenericCallAdapter):
         kwargs = {}
 
         for field in fields(value):  # type: ignore
-            if field.repr:
+            # a field with init=False is no argument of the constructor
+            if field.repr and field.init:
                 field_value = getattr(value, field.name)
                 is_default = False
 
